@@ -19,9 +19,12 @@ CONSTANTS
   WithBuild = FALSE
   TrustSourceClass = FALSE
   ParseLeavesUnchecked = FALSE
+  WithFault = TRUE
+  DumpMemoPartial = FALSE
   EmitH = TRUE
 SPECIFICATION HSpec
 VIEW HView
 PROPERTY HistoryFree
 INVARIANT HistSound
+INVARIANT DumpWhole
 CHECK_DEADLOCK FALSE
